@@ -75,7 +75,7 @@ func init() {
 		"Decides: reflect accessor/kind agreement and nil-type discipline in the value layer (R26b,c); ItemType switches are exhaustive (R28); no mutable package-level state in the value/data layer besides a locked registry, and NewOptions allocates a fresh locator (R45).",
 		"round-trip equality of values (formatting, integer ranges).")
 	prop("C17", "No data race, no panic",
-		[]string{"R22", "R23", "R24", "R25", "R26"}, []string{"Rerr"},
+		[]string{"R20", "R21", "R22", "R23", "R24", "R25", "R26", "Rerr"}, nil,
 		"Decides: lockset discipline over all mutex-bearing structs (R22), atomic-only consistency (R23), owner-goroutine confinement of node state (R24), closure-shared locals (R25), nil-map / reflect discipline (R26), dropped constructor errors (Rerr, thorough).",
 		"races on memory that has no discipline to infer; 'the outcome is one the sequential semantics allows'.")
 	prop("C18", "Process set",
